@@ -51,6 +51,30 @@ shim_hash(int alg, void * ctx, const uint8_t * key, size_t klen, const uint8_t *
 	}
 }
 
+#define RUNL(INIT, UPDATE, UPDATETAIL, FINAL) do {			\
+	INIT;								\
+	for (i = 0; i < nchunks; i++) {					\
+		UPDATE;							\
+	}								\
+	UPDATETAIL;							\
+	FINAL;								\
+} while (0)
+
+void
+shim_hash_long(int alg, void * ctx, const uint8_t * key, size_t klen, const uint8_t * chunk, size_t chunklen, size_t nchunks, size_t taillen, uint8_t * digest)
+{
+	size_t i;
+
+	switch (alg) {
+	case 0: RUNL(SHA256_Init(ctx), SHA256_Update(ctx, chunk, chunklen), SHA256_Update(ctx, chunk, taillen), SHA256_Final(digest, ctx)); break;
+	case 1: RUNL(SHA1_Init(ctx), SHA1_Update(ctx, chunk, chunklen), SHA1_Update(ctx, chunk, taillen), SHA1_Final(digest, ctx)); break;
+	case 2: RUNL(MD5_Init(ctx), MD5_Update(ctx, chunk, chunklen), MD5_Update(ctx, chunk, taillen), MD5_Final(digest, ctx)); break;
+	case 3: RUNL(HMAC_SHA256_Init(ctx, key, klen), HMAC_SHA256_Update(ctx, chunk, chunklen), HMAC_SHA256_Update(ctx, chunk, taillen), HMAC_SHA256_Final(digest, ctx)); break;
+	case 4: RUNL(HMAC_SHA1_Init(ctx, key, klen), HMAC_SHA1_Update(ctx, chunk, chunklen), HMAC_SHA1_Update(ctx, chunk, taillen), HMAC_SHA1_Final(digest, ctx)); break;
+	default: RUNL(HMAC_MD5_Init(ctx, key, klen), HMAC_MD5_Update(ctx, chunk, chunklen), HMAC_MD5_Update(ctx, chunk, taillen), HMAC_MD5_Final(digest, ctx)); break;
+	}
+}
+
 void
 shim_force_openssl_aes(void)
 {
